@@ -25,6 +25,8 @@
 #include "indent.h"
 #include "cppParser.h"
 
+#include <algorithm>
+
 /**
  * Returns the type of the sub-objects that a data member of the indicated
  * type consists of: this is the type itself, or the element type if it is an
@@ -556,6 +558,46 @@ is_destructible() const {
 }
 
 /**
+ * Adds the direct and indirect virtual base classes of the given class to the
+ * list, in so far as they are not already on it.
+ */
+static void
+collect_virtual_bases(const CPPStructType *type,
+                      std::vector<CPPStructType *> &bases) {
+  CPPStructType::Derivation::const_iterator di;
+  for (di = type->_derivation.begin(); di != type->_derivation.end(); ++di) {
+    CPPStructType *base = (*di)._base->as_struct_type();
+    if (base != nullptr) {
+      if ((*di)._is_virtual &&
+          std::find(bases.begin(), bases.end(), base) == bases.end()) {
+        bases.push_back(base);
+      }
+      collect_virtual_bases(base, bases);
+    }
+  }
+}
+
+/**
+ * Fills bases with the classes of the base class sub-objects that the
+ * constructors and the destructor of this class construct and destroy: these
+ * are the direct base classes, as well as the virtual base classes of the
+ * base classes, since it is up to the most derived class to take care of
+ * those.
+ */
+void CPPStructType::
+get_constructed_bases(std::vector<CPPStructType *> &bases) const {
+  Derivation::const_iterator di;
+  for (di = _derivation.begin(); di != _derivation.end(); ++di) {
+    CPPStructType *base = (*di)._base->as_struct_type();
+    if (base != nullptr &&
+        std::find(bases.begin(), bases.end(), base) == bases.end()) {
+      bases.push_back(base);
+    }
+  }
+  collect_virtual_bases(this, bases);
+}
+
+/**
  * Returns true if a default constructor of at least the given visibility is
  * available.  This does not consider whether the class is abstract, since an
  * abstract class can still be constructed as a base class sub-object.
@@ -587,18 +629,16 @@ is_default_constructible(CPPVisibility min_vis) const {
   }
 
   // Implicit or defaulted default constructor.  Check if it is deleted.
-  Derivation::const_iterator di;
-  for (di = _derivation.begin(); di != _derivation.end(); ++di) {
-    CPPStructType *base = (*di)._base->as_struct_type();
-    if (base != nullptr) {
-      if (!base->is_default_constructible(V_protected)) {
-        return false;
-      }
-      // A constructor potentially invokes the destructor of every sub-object
-      // it has constructed, so that needs to be usable as well.
-      if (!base->is_destructible(V_protected)) {
-        return false;
-      }
+  std::vector<CPPStructType *> bases;
+  get_constructed_bases(bases);
+  for (CPPStructType *base : bases) {
+    if (!base->is_default_constructible(V_protected)) {
+      return false;
+    }
+    // A constructor potentially invokes the destructor of every sub-object
+    // it has constructed, so that needs to be usable as well.
+    if (!base->is_destructible(V_protected)) {
+      return false;
     }
   }
 
@@ -692,17 +732,15 @@ is_copy_constructible(CPPVisibility min_vis) const {
   // Implicit copy constructor.  Check if the implicit copy constructor is
   // deleted.  Like for the default constructor, the destructor of this class
   // itself has no bearing on that, only those of its sub-objects.
-  Derivation::const_iterator di;
-  for (di = _derivation.begin(); di != _derivation.end(); ++di) {
-    CPPStructType *base = (*di)._base->as_struct_type();
-    if (base != nullptr) {
-      if (!base->is_copy_constructible(V_protected)) {
-        return false;
-      }
-      // As above, the destructor of the sub-object is potentially invoked.
-      if (!base->is_destructible(V_protected)) {
-        return false;
-      }
+  std::vector<CPPStructType *> bases;
+  get_constructed_bases(bases);
+  for (CPPStructType *base : bases) {
+    if (!base->is_copy_constructible(V_protected)) {
+      return false;
+    }
+    // As above, the destructor of the sub-object is potentially invoked.
+    if (!base->is_destructible(V_protected)) {
+      return false;
     }
   }
 
@@ -873,10 +911,10 @@ is_destructible(CPPVisibility min_vis) const {
   }
 
   // Make sure all base classes are destructible.
-  Derivation::const_iterator di;
-  for (di = _derivation.begin(); di != _derivation.end(); ++di) {
-    CPPStructType *base = (*di)._base->as_struct_type();
-    if (base != nullptr && !base->is_destructible(V_protected)) {
+  std::vector<CPPStructType *> bases;
+  get_constructed_bases(bases);
+  for (CPPStructType *base : bases) {
+    if (!base->is_destructible(V_protected)) {
       return false;
     }
   }
